@@ -185,7 +185,10 @@ func (r *Run) nontrivial() bool {
 	case "C06":
 		// at least one permuted pipeline really iterated some map in another order
 		return p["order_permutations_compared"] >= 1 && p["order_map_permuted"] >= 1
-	case "C01", "C05", "C09", "C03", "C15", "C08", "C10":
+	case "C09":
+		// a state with denied cross-namespace references was judged after an incremental update
+		return p["c09_denied_refs_states"] >= 1 && r.reconciles >= 2
+	case "C01", "C05", "C03", "C15", "C08", "C10":
 		return p["fresh_compared"]+p["router_compared"]+p["model_compared"] >= 2 && r.reconciles >= 2
 	case "C02":
 		return p["effective_compared"] >= 1 && p["dyn_update_cmds"] >= 1
